@@ -549,12 +549,82 @@ func (e *Engine) aliases(fn *ssa.Function) map[string]string {
 	return al
 }
 
+// paramNames: receiver, parameters and named results in signature order.
+func (e *Engine) paramNames(fn *ssa.Function) []string {
+	var out []string
+	for _, p := range fn.Params {
+		out = append(out, p.Name())
+	}
+	res := fn.Signature.Results()
+	for i := 0; i < res.Len(); i++ {
+		out = append(out, "="+res.At(i).Name())
+	}
+	return out
+}
+
+// paramAliases: contract name -> current name for parameters/receiver/named results renamed since the lock
+// (same signature length only; positions identify them).
+func (e *Engine) paramAliases(fn *ssa.Function) map[string]string {
+	locked, ok := e.lockedLocals[e.fnKey(fn)+"#params"]
+	cur := e.paramNames(fn)
+	if !ok || len(locked) != len(cur) {
+		return nil
+	}
+	var al map[string]string
+	for i := range cur {
+		a, b := strings.TrimPrefix(locked[i], "="), strings.TrimPrefix(cur[i], "=")
+		if a != b && a != "" && a != "_" && b != "" && b != "_" {
+			if al == nil {
+				al = map[string]string{}
+			}
+			al[a] = b
+		}
+	}
+	return al
+}
+
+// aliasEnv makes the names a contract was written with available in env when the code has renamed them.
+func (e *Engine) aliasEnv(fn *ssa.Function, env map[string]Val) {
+	if fn == nil {
+		return
+	}
+	for _, m := range []map[string]string{e.paramAliases(fn), e.aliases(fn)} {
+		for was, now := range m {
+			if _, has := env[was]; !has {
+				if v, ok := env[now]; ok {
+					env[was] = v
+				}
+			}
+		}
+	}
+}
+
 func (e *Engine) hasAnyContract(fn *ssa.Function) bool {
 	if e.contractOf(fn) != nil {
 		return true
 	}
 	for _, li := range e.loopInfo(fn) {
 		if e.cs.Loops[fmt.Sprintf("%s|%s#%d", pkgDirOf(fn.Pkg.Pkg), relName(fn), li.ordinal)] != nil {
+			return true
+		}
+	}
+	return false
+}
+
+// mustPrecede: the declared lock order requires `first` to be acquired before `second`.
+func (e *Engine) mustPrecede(first, second string) bool {
+	for _, chain := range e.cs.LockOrders {
+		fi, si := -1, -1
+		for i, r := range chain {
+			k := e.qualType(r.Pkg, r.Type) + "." + r.Mutex
+			if k == first {
+				fi = i
+			}
+			if k == second {
+				si = i
+			}
+		}
+		if fi >= 0 && si >= 0 && fi < si {
 			return true
 		}
 	}
